@@ -70,7 +70,7 @@ insts = [
  inst("isBasisValid_col", "SPxSolverBase<R>::isBasisValid(DataArray<VarStatus>, DataArray<VarStatus>) [COLUMN representation]", "h_isBasisValid", "w_isBasisValid",
       [S_isBasisValid], valid_loops(+1), ibv_mut, 300),
  inst("isBasisValid_row", "SPxSolverBase<R>::isBasisValid(DataArray<VarStatus>, DataArray<VarStatus>) [ROW representation]", "h_isBasisValid", "w_isBasisValid",
-      [S_isBasisValid], valid_loops(+1), [ibv_mut[0]], 300, tier="thorough"),
+      [S_isBasisValid], valid_loops(+1), [ibv_mut[0]], 300),
  inst("isDescValid", "SPxBasisBase<R>::isDescValid(const Desc&)", "h_isDescValid", "w_isDescValid",
       [S_isDescValid], valid_loops(-1), [
    {"name": "dual_status_unchecked", "slice": "Basis_isDescValid.inc", "find": "if(ds.colstat[col] !=  dualColStatus(col))", "replace": "if(ds.colstat[col] !=  ds.colstat[col])"},
